@@ -2008,6 +2008,14 @@ func (ts *TokenStore) revokeInternal(ctx context.Context, saltedID string, skipO
 		return nil
 	}
 
+	// Whatever fails from here on, clear the pending state so that the next
+	// call retries the revocation instead of short-circuiting as a success.
+	defer func() {
+		if ret != nil {
+			ts.tokensPendingDeletion.Store(saltedID, false)
+		}
+	}()
+
 	// The map check above should protect use from any concurrent revocations, so
 	// we do another lookup here to make sure we have the right state
 	entry, err := ts.lookupInternal(ctx, saltedID, true, true)
@@ -2026,7 +2034,7 @@ func (ts *TokenStore) revokeInternal(ctx context.Context, saltedID string, skipO
 			// really work either. So we clear revocation state so the user can
 			// try again.
 			ts.logger.Error("failed to mark token as revoked")
-			ts.tokensPendingDeletion.Store(entry.ID, false)
+			ts.tokensPendingDeletion.Store(saltedID, false)
 			return err
 		}
 	}
